@@ -9,6 +9,7 @@ import EEM.Model.Caltrack
 import EEM.Model.Splits
 import EEM.Gen.SplitCandidates
 import EEM.Model.Window
+import EEM.Model.BillingAgg
 
 open EEM EEM.Proto EEM.Model
 
@@ -241,6 +242,59 @@ def opReporting (args : List String) : String :=
     | _, _, _, _, _, _ => "bad-op"
   | _ => "bad-op"
 
+/-- hex-encoded ASCII string -/
+def parseHexString (s : String) : Option String :=
+  let cs := s.toList
+  let rec go : List Char → Option (List Char)
+    | [] => some []
+    | a :: b :: rest => do
+      let x ← hexDigit a; let y ← hexDigit b
+      let r ← go rest
+      pure (Char.ofNat (x * 16 + y) :: r)
+    | _ => none
+  (go cs).map String.ofList
+
+def parseNanFloat (s : String) : Option (Option Float) :=
+  if s == "-" then some none else (parseFloat s).map some
+
+def showOptFloat : Option Float → String
+  | some f => showFloat f
+  | none => "nan"
+
+/-- `agg <k> <ym temp obs pred unc heat cool>...` (7 tokens per row, `-` = NaN) -/
+def opAgg (args : List String) : String :=
+  match args with
+  | k :: rest =>
+    let rec rows : List String → Option (List (Model.BillingAgg.DRow Float))
+      | [] => some []
+      | ym :: a :: b :: c :: d :: e :: f :: more => do
+        let ym ← parseInt ym
+        let a ← parseNanFloat a; let b ← parseNanFloat b; let c ← parseNanFloat c
+        let d ← parseNanFloat d; let e ← parseNanFloat e; let f ← parseNanFloat f
+        let r ← rows more
+        pure ({ ym := ym, temperature := a, observed := b, predicted := c, unc := d, heating := e, cooling := f } :: r)
+      | _ => none
+    match parseInt k, rows rest with
+    | some k, some rs =>
+      "ok " ++ " ".intercalate ((Model.BillingAgg.aggregate k rs).map fun p =>
+        s!"{p.ym}:{showOptFloat p.temperature},{showFloat p.observed},{showFloat p.predicted},{showFloat p.unc},{showFloat p.heating},{showFloat p.cooling}")
+    | _, _ => "bad-op"
+  | _ => "bad-op"
+
+/-- `parseagg <hex string | ->` -/
+def opParseAgg (args : List String) : String :=
+  match args with
+  | [a] =>
+    let arg : Option (Option String) := if a == "-" then some none else (parseHexString a).map some
+    match arg with
+    | some arg => match Model.BillingAgg.parseAgg arg with
+      | some .none => "ok none"
+      | some .monthly => "ok monthly"
+      | some .bimonthly => "ok bimonthly"
+      | none => "ok ValueError"
+    | none => "bad-op"
+  | _ => "bad-op"
+
 def step (line : String) : String :=
   match words line with
   | "submodel" :: args => opPredictSubmodel args
@@ -260,6 +314,8 @@ def step (line : String) : String :=
   | "best" :: args => opBest args
   | "baseline" :: args => opBaseline args
   | "reporting" :: args => opReporting args
+  | "agg" :: args => opAgg args
+  | "parseagg" :: args => opParseAgg args
   | _ => "bad-op"
 
 partial def loop (h : IO.FS.Stream) (out : IO.FS.Stream) : IO Unit := do
